@@ -26,7 +26,11 @@ CLAIM = dict(
          "factorisations of the same grid; (folded_fft_is_direct_sum) with R-vectors folded into (and added on) an FFT box "
          "of any size >= 1 and the K-shift phase, FFT point m of K-point x carries the Fourier sum at grid point m*div+x, "
          "for every phase function that is multiplicative and div*fft-periodic; (cell_shape_invariant) dK_fullBZ = "
-         "1/(div*fft); (determineNK_exact) NK = div*fft with NKFFT given reproduces (div, fft).",
+         "1/(div*fft); (determineNK_exact) NK = div*fft with NKFFT given reproduces (div, fft); (symmetric_grid_star_on_grid, "
+         "total_grid_symmetric_not_enough) the symmetry reduction needs NKdiv (and NKFFT) symmetric on their own - a symmetric "
+         "total grid is not enough - so the rule the check enforces is determineNK's: every specified grid symmetric "
+         "(compared with the real accept/refuse decision), and every factorisation of small grids of C4/C6/cubic models is "
+         "either refused or reproduces the full-grid result with use_irred_kpt on and off.",
     note="Assumed, not proved: every grid calculator is of the form 'mean over the k-points of Data_K of a function of k' "
          "(holds by construction of the calculators; checked by running every constructible calculator), exp is "
          "multiplicative/periodic and the FFT libraries compute the DFT (trusted kernels, checked numerically). "
@@ -41,7 +45,9 @@ TRUSTED = [
 ]
 RULE = ("corr: (grid N per direction in 1..12, every/some factorisation N = div x fft, symmetry group on/off, refined "
         "K-lists) -> the (k, weight) list of the real Grid + Data_K objects; oracle: (random system, N in {4,6} per "
-        "direction, >= 2 factorisations incl. NKFFT below NKFFT_recommended, fftlib, tetra) x calculator; non-trivial = "
+        "direction, >= 2 factorisations incl. NKFFT below NKFFT_recommended, fftlib, tetra) x calculator; (model with a "
+        "C4 / C6 / cubic point group, ALL factorisations of (6,6,2), (4,4,2), (4,4,4), (6,6,6 sample), use_irred_kpt on/off): "
+        "refused by Grid() or equal to the full-grid reference; non-trivial = "
         "more than one K-point and more than one FFT point, or a calculator result that is not identically zero; "
         "distinct = distinct protocol line / distinct (system seed, N, factorisation, fftlib, tetra, calculator)")
 
@@ -183,6 +189,44 @@ def corr(ctx):
             want = f"{ints(d)};{ints(f)}"
             B.add(line, (lambda o, want=want: None if o == want else f"model={o} code={want}"), desc, "determineNK")
             ctx.count("corr.determineNK")
+    # --- d. which grids determineNK accepts: the model's rule is `every specified grid is symmetric on its own`
+    for it in range(ctx.n(40, 250)):
+        gd, pg = g6.pick_case(rng)
+        fft = [rng.choice([1, 2, 3, 4, 6]) for _ in range(3)]
+        other = [rng.choice([1, 2, 3, 4, 6]) for _ in range(3)]
+        r = rng.random()
+        if r < 0.45:      # make the TOTAL grid symmetric while the factors are anisotropic in related directions
+            a, b = rng.choice([(2, 3), (3, 2), (1, 6), (6, 1), (1, 2), (2, 1), (2, 2), (3, 3)])
+            fft = [a, b, rng.choice([1, 2])]
+            other = [b, a, rng.choice([1, 2])]
+            if rng.random() < 0.3:
+                fft, other = [fft[0], fft[2], fft[1]], [other[0], other[2], other[1]]
+        elif r < 0.7:
+            fft = [fft[0]] * 3
+            other = [other[0], other[0], other[2]]
+        if rng.random() < 0.6:
+            args = dict(NKdiv=np.array(other), NKFFT=np.array(fft), NK=None)
+            line = f"accept {g6.sym_tok(pg)} {ints(other)} {ints(fft)} _"
+        else:
+            nk = [o * f for o, f in zip(other, fft)]
+            args = dict(NKdiv=None, NKFFT=np.array(fft), NK=np.array(nk))
+            line = f"accept {g6.sym_tok(pg)} _ {ints(fft)} {ints(nk)}"
+        desc = dict(kind="acceptance", group=gd["group"], lat=gd["lat"],
+                    **{k: (None if v is None else v.tolist()) for k, v in args.items()})
+        with ctx.attempt("determineNK acceptance", desc), warnings.catch_warnings():
+            warnings.simplefilter("ignore")
+            try:
+                d, f = determineNK(np.array([True, True, True]), NKFFT_recommended=np.array([3, 3, 3]), pointgroup=pg, **args)
+                got = "1"
+            except AssertionError:
+                got = "0"
+            B.add(line, (lambda o, got=got: None if o == got else
+                         f"acceptance differs: model rule (each specified grid symmetric)={o} determineNK={'accepts' if got == '1' else 'refuses'}"),
+                  desc, "determineNK acceptance")
+            ctx.count("corr.accept.accepted" if got == "1" else "corr.accept.refused")
+            tot = [int(x) for x in (np.array(other) * np.array(fft))]
+            if got == "0" and pg.symmetric_grid(tot):
+                ctx.count("corr.accept.refused-although-total-grid-symmetric")
     B.run(ctx)
 
 
@@ -440,8 +484,120 @@ def oracle_kset(ctx, scale):
                              dict(case, K=K.K))
 
 
+SYM_KINDS = {
+    "c4": (["C4z", "Mx", "Inversion", "TimeReversal"], lambda a, c: np.diag([a, a, c]), [(6, 6, 2), (4, 4, 2)]),
+    "hex": (["C6z", "Mx", "Mz", "TimeReversal"],
+            lambda a, c: np.array([[a, 0, 0], [-a / 2, a * np.sqrt(3) / 2, 0], [0, 0, c]]), [(6, 6, 2), (4, 4, 2)]),
+    "cubic": (["C4z", "C4x", "Inversion", "TimeReversal"], lambda a, c: np.eye(3) * a, [(4, 4, 4), (6, 6, 6)]),
+}
+
+
+def symmetric_system(rng, kind, nw=2):
+    """tight-binding model that really has the point group: s-like orbitals at the origin, one random real symmetric
+    hopping matrix per orbit of R-vectors under the group (which contains inversion), irrational-looking values"""
+    with quiet():
+        from wannierberri.system.system_R import System_R
+    gens, mklat, _ = SYM_KINDS[kind]
+    A = mklat(rng.choice([1.0, 1.3]), rng.choice([1.6, 2.1]))
+    pg = g6.get_pg("sym-" + kind, gens, A)
+    Ainv = np.linalg.inv(A)
+    mats = []
+    for S in pg.symmetries:
+        M = A @ (S.R * S.iInv).T @ Ainv
+        assert np.abs(M - np.round(M)).max() < 1e-9
+        mats.append(np.round(M).astype(int))
+    ham, done = {}, set()
+    rs = np.random.RandomState(rng.getrandbits(31))
+    for seed in [(0, 0, 0), (1, 0, 0), (0, 0, 1), (1, 1, 0), (1, 0, 1), (2, 0, 0), (1, 1, 1), (0, 0, 2), (2, 1, 0)]:
+        orbit = {tuple(int(x) for x in np.array(seed) @ M) for M in mats}
+        if orbit & done:
+            continue
+        done |= orbit
+        h = rs.uniform(-1, 1, (nw, nw)) * (1.0 if seed == (0, 0, 0) else 0.45)
+        h = (h + h.T) / 2 + 0.0137
+        for R in orbit:
+            ham[R] = {(i, j): h[i, j] for i in range(nw) for j in range(nw)}
+    with quiet(), warnings.catch_warnings():
+        warnings.simplefilter("ignore")
+        system = System_R.from_sparse(real_lattice=A, wannier_centers_red=np.zeros((nw, 3)), matrices={"Ham": ham})
+        system.set_pointgroup(gens)
+    return system
+
+
+def oracle_symmetric(ctx, scale):
+    """systems whose point group mixes reciprocal axes, use_irred_kpt True and False: EVERY factorisation of a small grid
+    must either be refused by Grid() or give the result of the reference (full grid, no FFT, no symmetry)"""
+    rng = ctx.rng
+    wb = _mods()[0]
+    kinds = list(SYM_KINDS) if ctx.tier == "thorough" else rng.sample(list(SYM_KINDS), 2)
+    for kind in kinds * (1 if scale == 1 else 2):
+        case0 = dict(kind="symmetric", lattice_kind=kind)
+        with ctx.attempt("building a symmetric model", case0):
+            system = symmetric_system(rng, kind)
+        grids = SYM_KINDS[kind][2]
+        N = rng.choice(grids) if ctx.tier == "quick" else None
+        for N in ([N] if N else grids):
+            facs = [factorisations(n) for n in N]
+            combos = [(a, b, c) for a in facs[0] for b in facs[1] for c in facs[2]]
+            limit = ctx.n(32, 64)
+            if len(combos) > limit:
+                rng.shuffle(combos)
+                # keep the anisotropic ones with a symmetric total grid in the sample
+                combos = combos[:limit]
+            Ef = np.linspace(-2.5, 2.5, 9) + 0.01234 * rng.uniform(0.5, 1.5)
+            with quiet():
+                calcs = {"cumdos": wb.calculators.static.CumDOS(Efermi=Ef),
+                         "ohmic": wb.calculators.static.Ohmic_FermiSea(Efermi=Ef),
+                         "dos": wb.calculators.static.DOS(Efermi=Ef)}
+            with tempfile.TemporaryDirectory(prefix="c03s") as tmp:
+                def runit(div, fft, irred):
+                    with quiet(), warnings.catch_warnings():
+                        warnings.simplefilter("ignore")
+                        grid = wb.Grid(system, NKdiv=np.array(div), NKFFT=np.array(fft))
+                        cwd = os.getcwd()
+                        os.chdir(tmp)
+                        try:
+                            res = wb.run(system, grid, calcs, parallel=False, use_irred_kpt=irred, symmetrize=irred,
+                                         print_progress_step_time=1e9, fout_name=os.path.join(tmp, "r"))
+                        finally:
+                            os.chdir(cwd)
+                    return result_arrays(res)
+                case = dict(case0, N=list(N), group_size=system.pointgroup.size)
+                with ctx.attempt("run() reference on a symmetric model", case):
+                    ref = runit(list(N), [1, 1, 1], False)
+                    for c in combos:
+                        div, fft = [x[0] for x in c], [x[1] for x in c]
+                        c2 = dict(case, div=div, fft=fft)
+                        try:
+                            with quiet(), warnings.catch_warnings():
+                                warnings.simplefilter("ignore")
+                                wb.Grid(system, NKdiv=np.array(div), NKFFT=np.array(fft))
+                        except AssertionError:
+                            ctx.count("oracle.sym.refused-by-Grid")
+                            ctx.case(signature=("sym-refused", kind, tuple(N), tuple(div), tuple(fft)), nontrivial=False)
+                            continue
+                        aniso = len(set(div[:2])) > 1 or len(set(fft[:2])) > 1
+                        ctx.count("oracle.sym.accepted-anisotropic" if aniso else "oracle.sym.accepted-isotropic")
+                        for irred in (True, False):
+                            c3 = dict(c2, use_irred_kpt=irred)
+                            with ctx.attempt("run() on a symmetric model", c3):
+                                got = runit(div, fft, irred)
+                                for key in sorted(ref):
+                                    a, b = ref[key], got[key]
+                                    sc = max(np.abs(a).max(), 1e-300)
+                                    err = np.abs(a - b).max()
+                                    ctx.case(signature=("sym", kind, tuple(N), tuple(div), tuple(fft), irred, key),
+                                             nontrivial=bool(np.abs(a).max() > 0))
+                                    if err > 1e-9 * sc:
+                                        ctx.fail(f"symmetric model ({kind}, group of {system.pointgroup.size}), grid {list(N)}: the "
+                                                 f"ACCEPTED factorisation div={div} x fft={fft} (use_irred_kpt={irred}) changes "
+                                                 f"{key} by {err:.3e} (relative {err / sc:.2e}) with respect to the full grid",
+                                                 dict(c3, calculator=key))
+
+
 def oracle(ctx, scale):
     oracle_kset(ctx, scale)
+    oracle_symmetric(ctx, scale)
     oracle_runs(ctx, scale)
 
 
